@@ -3,7 +3,7 @@
    every run from the patterns of the current source tree and the prompt grammars of spec/prompts.py).
    This file contains only statements closed by [exact]. *)
 From Coq Require Import String.
-From Verif Require Import Bytes Regex RegexDeriv RegexDecide Regex_Proofs RegexSearch RegexSearch_Proofs Prompt Prompt_Proofs PromptCache PromptCache_Proofs PromptCacheObjs PromptCacheObjs_Proofs.
+From Verif Require Import Bytes Regex RegexDeriv RegexDecide Regex_Proofs RegexSearch RegexSearch_Proofs Prompt Prompt_Proofs PromptCache PromptCache_Proofs PromptCacheObjs PromptCacheObjs_Proofs PromptCacheBound_Proofs.
 From Gen Require Import Gen_PromptCache.
 
 (* the decision procedure: a validated closed certificate means NO byte string at all is accepted *)
@@ -55,6 +55,23 @@ Theorem C05_cache_transparent_objects :
   snd (mrun classify_opt gen_keyed_by_self gen_cap gen_update_clears_cache (mkM tbls []) ops) = mspec classify_opt tbls ops.
 Proof. exact (objects_cache_transparent_from_empty (list level) (list string) classify_opt gen_cap). Qed.
 Print Assumptions C05_cache_transparent_objects.
+
+(* the memo stays a well-formed LRU store on EVERY history, of one object or of any number of interleaved objects: never
+   more entries than the capacity read from the source, never two entries for one key — so a long-lived session that
+   sees unboundedly many distinct prompts (hostname changes, config sessions) cannot grow it, and a hit is unambiguous *)
+Theorem C05_cache_bounded :
+  forall (tbl : list level) (ops : list (cop (list level))),
+  good (list string) gen_cap
+    (c_cache (fst (crun classify_opt gen_cap gen_update_clears_cache (mkC tbl []) ops))).
+Proof. exact (fun tbl ops => cache_bounded (list level) (list string) classify_opt gen_cap gen_update_clears_cache ops (mkC tbl []) (nil_good _ _)). Qed.
+Print Assumptions C05_cache_bounded.
+
+Theorem C05_cache_bounded_objects :
+  forall (tbls : list (list level)) (ops : list (mop (list level))),
+  good (list string) gen_cap
+    (m_cache (fst (mrun classify_opt gen_keyed_by_self gen_cap gen_update_clears_cache (mkM tbls []) ops))).
+Proof. exact (fun tbls ops => objects_cache_bounded (list level) (list string) classify_opt gen_keyed_by_self gen_cap gen_update_clears_cache ops (mkM tbls []) (nil_good _ _)). Qed.
+Print Assumptions C05_cache_bounded_objects.
 
 (* a memo whose key ignores the object hands object 1 the answer computed for object 0 *)
 Theorem C05_cache_shared_key_refuted :
